@@ -111,10 +111,10 @@ PLANS = {
     },
     "C17": world(miri=False, asan=False),
     "C19": {
-        "quick": [st("dbg", "panicdrop", 2992, 12, 8), st("rel", "panicdrop", 2992, 12, 8),
+        "quick": [st("dbg", "panicdrop", 3264, 12, 8), st("rel", "panicdrop", 3264, 12, 8),
                   st("miri", "panicdrop", 34, 3, 17, 900)],
-        "thorough": [st("dbg", "panicdrop", 1496 * 160, 12, 16, 3000), st("rel", "panicdrop", 1496 * 160, 12, 16, 3000),
-                     st("rel", "panicdrop", 1496 * 40, 12, 16, 3000, big=1), st("asan", "panicdrop", 1496 * 8, 12, 16, 3000, asan_leaks=0),
+        "thorough": [st("dbg", "panicdrop", 1632 * 160, 12, 16, 3000), st("rel", "panicdrop", 1632 * 160, 12, 16, 3000),
+                     st("rel", "panicdrop", 1632 * 40, 12, 16, 3000, big=1), st("asan", "panicdrop", 1632 * 8, 12, 16, 3000, asan_leaks=0),
                      st("miri", "panicdrop", 187 * 2, 4, 17, 3000)],
     },
     "C20": {
@@ -188,14 +188,24 @@ for _p in list(RULES):
 # a destructor panic must not make a value be destroyed twice (C08) nor lose a Removed event (C12):
 # the fault-enumeration engine also runs under these properties' checks
 for _p in ("C08", "C12"):
-    PLANS[_p]["quick"].append(st("dbg", "panicdrop", 2992, 12, 8))
-    PLANS[_p]["thorough"].append(st("rel", "panicdrop", 1496 * 20, 12, 16, 3000))
+    PLANS[_p]["quick"].append(st("dbg", "panicdrop", 3264, 12, 8))
+    PLANS[_p]["thorough"].append(st("rel", "panicdrop", 1632 * 20, 12, 16, 3000))
 
 # C16 across a caught destructor panic inside ChangeSet::clear / drop / by-value join
-PLANS["C16"]["quick"].append(st("dbg", "panicdrop", 1496, 12, 8, only_op="changeset"))
-PLANS["C16"]["thorough"].append(st("rel", "panicdrop", 1496 * 20, 12, 16, 3000, only_op="changeset"))
+PLANS["C16"]["quick"].append(st("dbg", "panicdrop", 1632, 12, 8, only_op="changeset"))
+PLANS["C16"]["thorough"].append(st("rel", "panicdrop", 1632 * 20, 12, 16, 3000, only_op="changeset"))
 # C17 under concurrent creation: a fresh index only once the free list is exhausted
 PLANS["C17"]["quick"].append(st("rel", "conc", 1200, 300, 8, mode="stress"))
 PLANS["C17"]["quick"].append(st("dbg", "conc", 12000, 6, 8, mode="controlled"))
 PLANS["C17"]["thorough"].append(st("rel", "conc", 40000, 400, 8, 3000, mode="stress", max_threads=16))
 PLANS["C17"]["thorough"].append(st("dbg", "conc", 400000, 6, 16, 3000, mode="controlled"))
+
+# handle uniqueness (C01) also under concurrent shared-access creation
+PLANS["C01"]["quick"].append(st("rel", "conc", 1200, 300, 8, mode="stress"))
+PLANS["C01"]["quick"].append(st("dbg", "conc", 12000, 6, 8, mode="controlled"))
+PLANS["C01"]["thorough"].append(st("rel", "conc", 40000, 400, 8, 3000, mode="stress", max_threads=16))
+PLANS["C01"]["thorough"].append(st("dbg", "conc", 400000, 6, 16, 3000, mode="controlled"))
+
+# C04: an insertion whose default-filler construction panics must leave the map unchanged
+PLANS["C04"]["quick"].append(st("dbg", "panicdrop", 1632, 12, 8, only_op="insert_with_panicking_default"))
+PLANS["C04"]["thorough"].append(st("rel", "panicdrop", 1632 * 20, 12, 16, 3000, only_op="insert_with_panicking_default"))
